@@ -111,6 +111,19 @@ pub fn linemeasure_case(cx: &mut Ctx, n: u64, case: &Value) {
             }
         }
     }
+    // once per replay: a bound more than 2^21 times shorter than the segment (two million pieces): still no piece longer than the bound
+    static TINY_MAX_DONE: std::sync::atomic::AtomicBool = std::sync::atomic::AtomicBool::new(false);
+    if !TINY_MAX_DONE.swap(true, std::sync::atomic::Ordering::SeqCst) {
+        let l = LineString::new(vec![Coord { x: 0.0, y: 0.0 }, Coord { x: 3.0, y: 4.0 }, Coord { x: 3.0, y: 5.0 }]);
+        let max = 5.0 / 2_200_000.0;
+        let got = guard(|| Euclidean.densify(&l, max));
+        let ok = match &got {
+            Ok(o) => o.0.first() == l.0.first() && o.0.last() == l.0.last() && o.0.contains(&l.0[1])
+                && o.0.windows(2).all(|w: &[Coord<f64>]| { let (dx, dy): (f64, f64) = (w[1].x - w[0].x, w[1].y - w[0].y); (dx * dx + dy * dy).sqrt() <= max * (1.0 + 1e-9) }),
+            Err(_) => false,
+        };
+        if ok { cx.ok("densify_two_million_pieces"); } else { cx.bad("C15", "densify_two_million_pieces", case, json!({"what": format!("densify([(0,0),(3,4),(3,5)], {max}): a piece is longer than the bound, or a vertex is missing"), "points": got.as_ref().map(|o| o.0.len()).unwrap_or(0)})); }
+    }
     // densify with bounds just below a whole fraction of a segment's length (length / max a hair above an integer: one piece more
     // is needed than the integer suggests); the three postconditions that need no count from the specification
     {
